@@ -66,6 +66,18 @@ def render_def(d):
         elif dep['k'] == 'by':
             line += ' deprecated by %s' % (dep['n'] + (':%d' % dep['ver'] if dep['ver'] != 1 else ''))
         out.append(line)
+    elif k == 'patch':
+        if d['pk'] == 'struct':
+            out.append('patch struct %s' % d['n'])
+            for f in _seq(d['fields']):
+                line = '    %s %s' % (f['n'], render_ref(f['t']))
+                if f['dflt']:
+                    line += ' = ' + default_literal(f['t'])
+                out.append(line)
+        else:
+            out.append('patch %s %s' % ('union_closed' if d['closed'] else 'union', d['n']))
+            for t in _seq(d['fields']):
+                out.append(('    %s %s' % (t['n'], render_ref(t['t']))).rstrip())
     else:
         raise ValueError(d)
     return '\n'.join(out) + '\n'
@@ -150,6 +162,45 @@ def project_api(api):
     return out
 
 
+def _reorder(items, groups, name=lambda x: x):
+    """Members added by several patches of one type follow the type's own members in file order; put that block into
+    the order of `groups` (the order StoneSem!CanonPatches chose) so that layouts can be compared."""
+    members = [n for g in groups for n in g]
+    idx = [i for i, it in enumerate(items) if name(it) in members]
+    if len(idx) != len(members) or (idx and idx != list(range(idx[0], idx[0] + len(idx)))):
+        return items, None                      # not a contiguous block of exactly these members: leave it to the comparison
+    by = {name(items[i]): items[i] for i in idx}
+    observed = tuple(name(items[i]) for i in idx)
+    out = list(items)
+    out[idx[0]:idx[0] + len(idx)] = [by[n] for n in members] if idx else []
+    return out, observed
+
+
+def patch_canon(got, exp):
+    """Bring the members contributed by several patches into canonical order in a projected Api; returns the observed
+    patch orders (for C11: backend output is only compared between layouts that put the patches in the same order)."""
+    observed = []
+    for ge, gg in zip(exp, got):
+        for te in ge['types']:
+            groups = [_seq(g) for g in _seq(te.get('patch_groups'))]
+            if len(groups) < 2:
+                continue
+            for tg in gg['types']:
+                if tg['n'] == te['n']:
+                    if tg['k'] == 'struct':
+                        tg['fields'], o = _reorder(tg['fields'], groups, lambda f: f['n'])
+                    else:
+                        pairs = list(zip(tg['tags'], tg['tagtypes'] + [None] * (len(tg['tags']) - len(tg['tagtypes']))))
+                        pairs, o = _reorder(pairs, groups, lambda p_: p_[0])
+                        tg['tags'] = [p_[0] for p_ in pairs]
+                        tg['tagtypes'] = [p_[1] for p_ in pairs if p_[1] is not None]
+                    observed.append((te['n'], o))
+                for key in ('all_fields', 'all_tags'):
+                    if key in tg:
+                        tg[key], _ = _reorder(tg[key], groups)
+    return tuple(observed)
+
+
 def canon(x):
     """Order-free canonical JSON for comparing set-valued parts."""
     return json.dumps(x, sort_keys=True)
@@ -164,7 +215,7 @@ def norm_denote(den):
             d.pop('imports', None)
             if 'parent' in d:
                 d['parent'] = list(d['parent']) if d['parent'] else []
-            for key in ('fields', 'subs', 'tags', 'tagtypes', 'all_fields', 'all_tags', 'by', 'examples'):
+            for key in ('fields', 'subs', 'tags', 'tagtypes', 'all_fields', 'all_tags', 'by', 'examples', 'patch_groups'):
                 if key in d and not isinstance(d[key], list):
                     d[key] = []
             if 'examples' in d:
@@ -293,6 +344,10 @@ class SemJudge(Judge):
                 g['routes'].sort(key=lambda t: (t['n'], t['ver']))
             if self.judged % 499 == 1:
                 self.sample({'specs': specs, 'api': got})
+            patch_canon(got, exp)
+            for nsd in exp:
+                for t in nsd['types']:
+                    t.pop('patch_groups', None)
             if canon(got) != canon(exp):
                 self.violation(None, 'API description differs from the declared model: %s'
                                % first_diff(exp, got), ctx, got)
@@ -302,24 +357,36 @@ class SemJudge(Judge):
         elif self.prop == 'C11':
             self.judged += 1
             key = (obj['scenario'], obj['inst'])
+            order = ()
             if out[0] == 'api':
-                sig = ('api', canon(project_api(out[1])), backend_digest(out[1]))
+                got = sorted(project_api(out[1]), key=lambda n: n['ns'])
+                for g in got:
+                    g['types'].sort(key=lambda t: t['n'])
+                # members of several patches keep file order: the description is compared modulo that order, the
+                # backend output only between layouts that put the patches in the same order
+                order = patch_canon(got, norm_denote(obj['denote'])) if obj['wellformed'] else ()
+                sig = ('api', canon(got), backend_digest(out[1]))
             elif out[0] == 'invalid':
                 sig = ('invalid',)
             else:
                 sig = ('exc', type(out[1]).__name__)
             if key not in self.by_inst:
-                self.by_inst[key] = (sig, specs)
+                self.by_inst[key] = (sig, specs, {order: sig[2] if sig[0] == 'api' else None})
                 self.count('instances')
             else:
-                first, fspecs = self.by_inst[key]
+                first, fspecs, digests = self.by_inst[key]
                 if first[0] != sig[0]:
                     self.violation(None, 'same definitions, different layout: one order is %s, another is %s'
                                    % (first[0], sig[0]), {'vector': obj, 'specs': specs, 'other_specs': fspecs})
-                elif first != sig:
-                    which = 'API description' if first[1] != sig[1] else 'backend output'
-                    self.violation(None, 'same definitions, different layout: %s differs' % which,
+                elif sig[0] == 'api' and first[1] != sig[1]:
+                    self.violation(None, 'same definitions, different layout: API description differs',
                                    {'vector': obj, 'specs': specs, 'other_specs': fspecs})
+                elif sig[0] == 'api':
+                    if order not in digests:
+                        digests[order] = sig[2]
+                    elif digests[order] != sig[2]:
+                        self.violation(None, 'same definitions, different layout: backend output differs',
+                                       {'vector': obj, 'specs': specs, 'other_specs': fspecs})
 
 
 def rule_class(obj):
